@@ -107,6 +107,12 @@ func observe(scen string, in In, hs []*hashio.Hasher, names []string, seen []byt
 		pre = "mid-"
 	}
 	if len(hs) != len(names) {
+		// a list that repeats a name may come back with one Hasher per distinct name (first occurrences, in order)
+		if d := gen.Dedup(append([]string(nil), names...)); len(d) == len(hs) && len(d) < len(names) {
+			names = d
+		}
+	}
+	if len(hs) != len(names) {
 		return mc.V(scen, "constructor", in, fmt.Sprintf("%d hashers", len(names)), fmt.Sprintf("%d hashers", len(hs)), chunkFeatures(in)...)
 	}
 	for i, h := range hs {
@@ -181,7 +187,7 @@ func checkHashBytes(scen string, in In, stream []byte) (v *mc.Violation) {
 		}
 		total += c
 	}
-	if total != len(stream) || len(in.Algos) == 0 {
+	if total != len(stream) || (len(in.Algos) == 0 && in.Op != "writers" && in.Op != "readers") {
 		return nil // not an input of this scenario
 	}
 	panicked, msg := mc.Guard(func() { v = checkHashInner(scen, in, stream) })
@@ -562,9 +568,9 @@ func ownAlgo(carrier, fields string) string {
 		case "512":
 			return "sha512"
 		}
-	case "hasher-sha256":
+	case "hasher-sha256", "struct-sha256":
 		return "sha256"
-	case "hasher-sha512":
+	case "hasher-sha512", "struct-sha512":
 		return "sha512"
 	}
 	return ""
@@ -790,7 +796,11 @@ func checkVerify(scen string, in In) (*mc.Violation, string) {
 	var viol *mc.Violation
 	var verdict, detail, second string
 	panicked, msg := mc.Guard(func() {
-		if fromHasher {
+		if strings.HasPrefix(in.Carrier, "struct-") {
+			// the entry is a FileHash value whose Hash field is the text itself (blanks and the empty text included)
+			fh = control.FileHash{Algorithm: algo, Hash: in.RecText, Size: int64(len(target)), Filename: "pkg_1.0-1.dsc"}
+			want = shouldAccept(in.RecText, algo, target)
+		} else if fromHasher {
 			h, err := hashio.NewHasher(algo)
 			if err != nil {
 				viol = mc.V(scen, "constructor", in, "hasher", err.Error(), feat...)
@@ -978,12 +988,13 @@ func lenClass(n int) string {
 }
 
 type work struct {
-	stream []byte
-	chunks [][]int
-	patLen int               // > 0: stream == pattern(patLen); inputs carry the length instead of the bytes
-	xorLen int               // > 0: stream == nonPeriodic(xorLen); inputs carry the length instead of the bytes
-	large  bool              // large stream: plain source only, observation at the end and mid-stream only
-	vias   map[bool][]string // non-nil: ways of writing (false) / reading (true) to use instead of all
+	stream  []byte
+	chunks  [][]int
+	patLen  int               // > 0: stream == pattern(patLen); inputs carry the length instead of the bytes
+	xorLen  int               // > 0: stream == nonPeriodic(xorLen); inputs carry the length instead of the bytes
+	large   bool              // large stream: plain source only, observation at the end and mid-stream only
+	allSels bool              // every selection with every way (no reduction)
+	vias    map[bool][]string // non-nil: ways of writing (false) / reading (true) to use instead of all
 }
 
 // reducedSel: the selections used with the non-default ways of writing / reading (which exercise plumbing that
@@ -1036,7 +1047,7 @@ func hashScenario(r *mc.Run, name string, bounds map[string]interface{}, ws []wo
 						for si, sel := range sels {
 							// the full set of 64 selections is used with the plain way and the plain source; the other
 							// ways / source styles concern plumbing that does not depend on the order of many names
-							if (vi != 0 || (src != "" && src != "full")) && !reducedSel(sel) {
+							if (vi != 0 || (src != "" && src != "full")) && !w.allSels && !reducedSel(sel) {
 								continue
 							}
 							ats := sumAts(ch)
@@ -1213,6 +1224,33 @@ func Run(r *mc.Run) {
 			"algorithm_selections": "each single name, all four in both orders"}, ws, []string{"writers", "readers", "writer1", "reader1", "hasher"}, six, srcs)
 	}
 
+	// algorithm lists WITH repetition: every list of 1..3 names over the four (84), and the empty list. Every returned
+	// Hasher must report the stream's length and its own algorithm's digest whatever else is in the list; the
+	// hashers come back one per request or one per distinct name. Empty list (reference: the unchanged tree): no
+	// error, no hashers, bytes pass through.
+	{
+		lists := [][]string{{}}
+		for _, a := range allAlgos {
+			lists = append(lists, []string{a})
+			for _, b := range allAlgos {
+				lists = append(lists, []string{a, b})
+				for _, c := range allAlgos {
+					lists = append(lists, []string{a, b, c})
+				}
+			}
+		}
+		var ws []work
+		vias := map[bool][]string{false: {"write", "writestring", "copy-strings-reader", "bufio3-writestring"}, true: {"read", "readall", "copy-buffer"}}
+		for _, st := range shortStreams(2) {
+			ws = append(ws, work{stream: st, chunks: withEmpty(compositions(len(st))), vias: vias, allSels: true})
+		}
+		for _, st := range [][]byte{pattern(65), nonPeriodic(200)} {
+			ws = append(ws, work{stream: st, chunks: [][]int{{len(st)}, {1, len(st) - 1}, {len(st) - 1, 1}, fixedChunks(len(st), 64)}, vias: vias, allSels: true})
+		}
+		hashScenario(r, "repeated-names", map[string]interface{}{"algorithm_lists": len(lists), "lists": "every list of 0..3 names over the four, with repetition",
+			"streams": "all |s|<=2 over 00 61 ff with every composition (+ one empty chunk), pattern(65), xorshift(200)"}, ws, []string{"writers", "readers"}, lists, []string{"full", "dataeof"})
+	}
+
 	// large chunks: single Write calls / Read results beyond 64 KiB, 128 KiB and 1 MiB (no audit help needed)
 	{
 		const Ki, Mi = 1 << 10, 1 << 20
@@ -1382,8 +1420,11 @@ func unknownScenario(r *mc.Run) {
 		}
 	}
 	ctx = append(ctx, []string{})
+	for _, a := range allAlgos { // contexts that repeat a name
+		ctx = append(ctx, []string{a, a})
+	}
 	r.Scenario("unknown-names", map[string]interface{}{"unknown_names": unknownNames, "constructors": ctors,
-		"plural_contexts": "the unknown name at every position of every ordered selection of <= 2 valid names"}, len(unknownNames),
+		"plural_contexts": "the unknown name at every position of every ordered selection of <= 2 valid names and of every doubled name"}, len(unknownNames),
 		func(i int, st *mc.Stats) bool {
 			u := unknownNames[i]
 			for _, c := range ctors {
@@ -1548,10 +1589,10 @@ func verifyScenarios(r *mc.Run) {
 func nearHashScenario(r *mc.Run) {
 	streams := [][]byte{{}, {'a'}, {0x00, 0xff}, []byte("abc"), nonPeriodic(200), pattern(64)}
 	type cf struct{ carrier, fields string }
-	cfs := []cf{{"doc-sha256", "256"}, {"doc-sha512", "512"}, {"best", "256"}, {"best", "512"}, {"best", "both"}, {"dsc", "256"}}
+	cfs := []cf{{"doc-sha256", "256"}, {"doc-sha512", "512"}, {"best", "256"}, {"best", "512"}, {"best", "both"}, {"dsc", "256"}, {"struct-sha256", ""}, {"struct-sha512", ""}}
 	const digits = "0123456789abcdef"
 	r.Scenario("verifier-near-hashes", map[string]interface{}{"streams": len(streams), "carrier/fields": fmt.Sprint(cfs),
-		"recorded": "every single-hex-digit substitution of the true digest (position x 15 other digits; contains the single-byte XORs with 01, 20, 80), also spelled in upper case; true digest in lower / upper / alternating case"},
+		"recorded": "every single-hex-digit substitution of the true digest (position x 15 other digits; contains the single-byte XORs with 01, 20, 80), also spelled in upper case; true digest in lower / upper / alternating case; true digest with 1-2 characters (hex and not) appended or prepended, one or two deleted at start / middle / end, 0x prefix, doubled, half, and (FileHash values) empty or with blanks around / inside"},
 		len(streams)*len(cfs), func(i int, st *mc.Stats) bool {
 			s, c := streams[i/len(cfs)], cfs[i%len(cfs)]
 			algo := ownAlgo(c.carrier, c.fields)
@@ -1573,6 +1614,13 @@ func nearHashScenario(r *mc.Run) {
 						}
 					}
 				}
+			}
+			// the true digest with characters appended / prepended / deleted, with a 0x prefix, doubled, odd length
+			mid := len(t) / 2
+			texts = append(texts, t+"0", t+"00", t+"z", t+"zz", t+"0z", t+"z0", t+"g", "0"+t, "00"+t, "z"+t, "0x"+t, "0X"+strings.ToUpper(t),
+				t[1:], t[:mid]+t[mid+1:], t[:len(t)-1], t[2:], t[:len(t)-2], t+t, t+strings.ToUpper(t), t[:mid], t+":", t+"=")
+			if strings.HasPrefix(c.carrier, "struct-") {
+				texts = append(texts, "", " ", " "+t, t+" ", " "+t+" ", "\t"+t, t+"\n", t+" 0", t[:mid]+" "+t[mid:])
 			}
 			for ti, text := range texts {
 				in := In{Op: "verify", Stream: hex.EncodeToString(s), Other: hex.EncodeToString(append(append([]byte(nil), s...), 0)), Chunks: []int{len(s)}, SumAt: -1,
